@@ -152,11 +152,17 @@ def run_property(prop: Prop, tier: str, seed: int, replay: str | None = None) ->
     try:
         terms = []
         for idx, (case, obs) in enumerate(results):
-            t = prop.to_coq(case, obs)
+            if hasattr(prop, "multi_coq") and "harness_exception" not in obs:
+                for t in prop.multi_coq(case, obs):
+                    if t is not None:
+                        terms.append((idx, t))
+                continue
+            t = prop.to_coq(case, obs) if "harness_exception" not in obs else None
             if t is not None:
                 terms.append((idx, t))
         n_corr = len(terms)
-        shards = [terms[i : i + SHARD] for i in range(0, len(terms), SHARD)]
+        shard = max(40, -(-len(terms) // (core.NCPU - 1)))
+        shards = [terms[i : i + shard] for i in range(0, len(terms), shard)]
         for k, sh in enumerate(shards):
             body = (
                 f"Definition cases : list {prop.coq_case_type} := [\n"
